@@ -1,5 +1,4 @@
--- Driver executable drv_gnfa (stub until its family is implemented).
-import AutomataVerif.Driver.Proto
+-- Driver executable drv_gnfa (C12: GNFA construction, state elimination, GNFA validation).
+import AutomataVerif.Driver.Gnfa
 def main : IO Unit := do
-  AV.Proto.loop (← IO.getStdin) (← IO.getStdout) fun cmd _ =>
-    if cmd == "PING" then .ok "pong" else .error s!"unknown command {cmd}"
+  AV.Proto.loop (← IO.getStdin) (← IO.getStdout) AV.Driver.Gnfa.handle
